@@ -15,7 +15,7 @@ namespace igris
 
         while (true)
         {
-            while (*ptr == delim)
+            while (ptr != end && *ptr == delim)
                 ptr++;
 
             if (ptr == end)
@@ -46,7 +46,7 @@ namespace igris
         while (true)
         {
             // Skip delimiters
-            while (strchr(delims, *ptr) != NULL && ptr != end)
+            while (ptr != end && *ptr != '\0' && strchr(delims, *ptr) != NULL)
                 ptr++;
 
             if (ptr == end)
@@ -54,7 +54,7 @@ namespace igris
 
             strt = ptr;
 
-            while (ptr != end && strchr(delims, *ptr) == NULL)
+            while (ptr != end && (*ptr == '\0' || strchr(delims, *ptr) == NULL))
                 ptr++;
 
             outvec.emplace_back(strt, ptr - strt);
@@ -150,7 +150,7 @@ std::vector<std::string> igris::split_cmdargs(const igris::buffer &str)
     while (true)
     {
         // Skip delimiters
-        while (*ptr == ' ' && ptr != end)
+        while (ptr != end && *ptr == ' ')
             ptr++;
 
         if (ptr == end)
